@@ -134,8 +134,10 @@ def family_cast():
                                                {"p": {"p": "con", "ty": "Option", "i": 0, "args": [{"p": "var", "x": "b"}]}, "b": {"k": "if", "c": V("b"), "t": I(2), "e": I(1)}},
                                                {"p": {"p": "con", "ty": "Option", "i": 1, "args": []}, "b": I(0)}]}}),
         (ag.TAdt("Rec5"), INT, {"k": "field", "e": X, "i": 1, "ty": ag.TAdt("Rec5")}),
+        (ag.TAdt("RecL"), INT, binop("+", {"k": "field", "e": X, "i": 1, "ty": ag.TAdt("RecL")}, call("or_else", {"k": "field", "e": X, "i": 3, "ty": ag.TAdt("RecL")}, I(0)))),
     ]
-    pool5 = DATA_POOL + [{"d": "C", "tag": 5, "fs": [DI(1), DC(1)]}, {"d": "C", "tag": 5, "fs": [DI(1), DC(2)]}, {"d": "C", "tag": 0, "fs": [DI(1), DC(1)]}]
+    pool5 = DATA_POOL + [DL(DI(1), DB(2), DC(1)), DL(DI(1), DB(2), DC(0, DI(4))), DL(DI(1), DB(2)), DL(DI(1), DB(2), DC(1), DI(0)), DL(DB(2), DI(1), DC(1)),
+                         DC(0, DI(1), DB(2), DC(1)), {"d": "C", "tag": 5, "fs": [DI(1), DC(1)]}, {"d": "C", "tag": 5, "fs": [DI(1), DC(2)]}, {"d": "C", "tag": 0, "fs": [DI(1), DC(1)]}]
     mods = []
     for group in chunks(uses, 9):
         m = Mod()
